@@ -211,16 +211,19 @@ def traffic_log(sx):
     sizes = [first, second]
     while sum(sizes) < 1024:
         sizes.append(min(39, 1024 - sum(sizes)))
-    snap = GeckoSnapshot()
-    pos = 0
-    for i, sz in enumerate(sizes):
-        nxt = 0 if i == len(sizes) - 1 else i + 1
-        h = GeckoStatusBlockProtocolHandler.response(i, nxt, blk[pos:pos + sz], parms=(DEST[0], DEST[1], SRC_ID, CLI_ID))
-        pos += sz
-        line = f"2020-12-12 09:36:48,310 geckolib.driver.udp_socket DEBUG Received {h.send_bytes!r} from ('10.1.2.3', 10022)"
-        snap.parse(line)
-    sx.observe("len", len(snap.bytes))
-    sx.check(snap.bytes == blk, "log.reassembles-to-the-transferred-block", lambda: f"{len(snap.bytes)} bytes, sizes {sizes[:3]}")
+    # two connection logs one after the other in the same process, each into its own snapshot object
+    for which, blk in enumerate((blk, bytes(reversed(blk)))):
+        snap = GeckoSnapshot()
+        pos = 0
+        for i, sz in enumerate(sizes):
+            nxt = 0 if i == len(sizes) - 1 else i + 1
+            h = GeckoStatusBlockProtocolHandler.response(i, nxt, blk[pos:pos + sz], parms=(DEST[0], DEST[1], SRC_ID, CLI_ID))
+            pos += sz
+            line = f"2020-12-12 09:36:48,310 geckolib.driver.udp_socket DEBUG Received {h.send_bytes!r} from ('10.1.2.3', 10022)"
+            snap.parse(line)
+        sx.observe(f"len{which}", len(snap.bytes))
+        sx.check(snap.bytes == blk, "log.reassembles-to-the-transferred-block",
+                 lambda: f"log {which}: {len(snap.bytes)} bytes, sizes {sizes[:3]}")
 
 
 def log_file_round_trip(sx):
